@@ -72,8 +72,11 @@ def repo_sources(exclude=()):
 
 FLAVORS = {
     "plain": (["gcc", "-O1", "-g0"], []),
+    # pointer-overflow stays enabled but recoverable: the unchanged library computes NULL + 0 on gaps/close
+    # (htp_request.c / htp_response.c, "applying zero offset to null pointer": a listed known finding of C01);
+    # run_driver scans stderr and turns every OTHER runtime error into a failure
     "san": (["clang", "-O1", "-g", "-fsanitize=address,undefined", "-fno-sanitize-recover=undefined",
-             "-fno-omit-frame-pointer"], ["-fsanitize=address,undefined"]),
+             "-fsanitize-recover=pointer-overflow", "-fno-omit-frame-pointer"], ["-fsanitize=address,undefined"]),
     "cov": (["clang", "-O0", "-g0"], []),
 }
 CDEFS = ["-std=gnu99", "-D_GNU_SOURCE", "-D" + GUARD, "-DHAVE_CONFIG_H", "-w"]
@@ -297,8 +300,18 @@ def build_model_driver(ctx):
 # ---------------------------------------------------------------- running and comparing
 
 SAN_ENV = {"ASAN_OPTIONS": "detect_leaks=1:abort_on_error=0:exitcode=86:allocator_may_return_null=1",
-           "UBSAN_OPTIONS": "print_stacktrace=1:halt_on_error=1:exitcode=87",
+           "UBSAN_OPTIONS": "print_stacktrace=0:exitcode=87",
            "LSAN_OPTIONS": "exitcode=88"}
+BENIGN_UB = "applying zero offset to null pointer"
+
+
+def ub_reports(err):
+    """runtime-error lines of UBSan in a stderr text, split into (benign NULL+0, others)"""
+    benign, other = [], []
+    for l in err.splitlines():
+        if "runtime error:" in l:
+            (benign if BENIGN_UB in l else other).append(l.strip())
+    return benign, other
 
 
 def run_driver(ctx, exe, cases, tag, env=None, timeout=1800, args=()):
@@ -327,6 +340,15 @@ def run_driver(ctx, exe, cases, tag, env=None, timeout=1800, args=()):
     if lines and lines[-1] == "":
         lines.pop()
     err = open(ef, errors="replace").read()
+    benign, other = ub_reports(err)
+    if benign:
+        st = ctx.cov.setdefault("benign_null_plus_zero_sites", [])
+        for l in benign:
+            site = l.split(": runtime error")[0].split("/")[-1]
+            if site not in st:
+                st.append(site)
+    if other and rc == 0:
+        return lines, 87, "\n".join(other[:20])
     return lines, rc, err[-6000:]
 
 
